@@ -138,6 +138,21 @@ func verifMax(a, b int) int {
 }
 
 func verifSubject(vm *Otto) (string, []uint16) {
+	if verifParam("astral", 0) == 1 {
+		// 0..1 symbolic ASCII bytes, a fixed astral character (a surrogate pair
+		// in UTF-16), 0..1 symbolic ASCII bytes
+		pre := verifNondetString(verifChoose(2))
+		suf := verifNondetString(verifChoose(2))
+		for i := 0; i < len(pre); i++ {
+			verifAssume(pre[i] < 0x80)
+		}
+		for i := 0; i < len(suf); i++ {
+			verifAssume(suf[i] < 0x80)
+		}
+		s := pre + "\U0001F600" + suf
+		vm.Set("s", s)
+		return s, refUnits(s)
+	}
 	n := verifChoose(verifParam("maxlen", 3) + 1)
 	s := verifNondetString(n)
 	verifAssume(verifValidUTF8(s))
